@@ -77,12 +77,19 @@ DEFAULT_PROFILE = {
         "assign_scalar": 6, "assign_elem": 8, "assign_section": 5,
         "do": 8, "dowhile": 1, "if": 4, "if1": 2, "select": 3,
         "where": 3, "call": 3, "exitcycle": 2, "print": 0, "return": 0,
+        "matmul": 0,
     },
     "arrays": None,            # None = draw a subset; or list of names
     "functions": True,
     "ninputs": 3,
     "array_intrinsics": True,
     "neg_bounds": False,       # negative lower bounds (UnsupportedFortranType)
+    "twin_loops": 0,           # percent: a DO is followed by a twin DO
+    "perfect_nest": 0,         # percent: a DO body is exactly one inner DO
+    "same_var_twin": 50,       # percent: the twin uses the same loop variable
+    "rich_intrinsics": False,  # SIGN, 3-argument MIN/MAX, mask=, dim=, MATMUL
+    "dep_index": 0,            # percent: subscripts from dependence templates
+    "extra_int_scalars": (),   # additional integer inout scalars (names)
 }
 
 
@@ -433,8 +440,46 @@ class Gen:
         return [h for h in self.helpers
                 if h.is_function and h.restype == "real"]
 
+    def dep_index(self, lb, ub):
+        """Subscript from the dependence-analysis templates (i/2, MOD,
+        2*i, n-i, index arrays, ...), in [lb, ub] by interval reasoning;
+        None if no template fits."""
+        cands = []
+        for var in self.loop_stack:
+            if var.rng is None:
+                continue
+            lo, hi = var.rng
+            nam = var.name
+            forms = [(nam, lo, hi), (f"{nam} + 1", lo + 1, hi + 1),
+                     (f"{nam} - 1", lo - 1, hi - 1),
+                     (f"{nam} + 2", lo + 2, hi + 2),
+                     (f"{nam} / 2", int(lo / 2), int(hi / 2)),
+                     (f"({nam} + 1) / 2", int((lo + 1) / 2),
+                      int((hi + 1) / 2)),
+                     (f"{nam} / 2 + 1", int(lo / 2) + 1, int(hi / 2) + 1),
+                     (f"2 * {nam}", 2 * lo, 2 * hi),
+                     (f"2 * {nam} - 1", 2 * lo - 1, 2 * hi - 1),
+                     (f"mod({nam}, 2) + 1", 0 if lo < 0 else 1, 2),
+                     (f"mod({nam}, 3) + {lit(max(lb, 1))}",
+                      max(lb, 1) - (2 if lo < 0 else 0), max(lb, 1) + 2),
+                     (f"{lo + hi} - {nam}", lo, hi),
+                     (f"{nam} * {nam}", 0 if lo <= 0 <= hi else
+                      min(lo * lo, hi * hi), max(lo * lo, hi * hi))]
+            if "ia" in self.vars and lo >= 1 and hi <= 6:
+                forms.append((f"ia({nam})", 1, 6))
+                forms.append((f"ia({nam})", 1, 6))
+            cands += [f for f in forms if f[1] >= lb and f[2] <= ub]
+        if not cands:
+            return None
+        return self.pick(cands)[0]
+
     def index(self, lb, ub):
         """Text of an integer expression guaranteed to lie in [lb, ub]."""
+        if self.prof["dep_index"] and self.loop_stack and \
+                self.int(1, 100) <= self.prof["dep_index"]:
+            txt = self.dep_index(lb, ub)
+            if txt:
+                return txt
         opts = [(3, "lit"), (4, "expr")]
         fits = []
         for var in self.loop_stack + [v for v in self.scalars("int")
@@ -501,9 +546,17 @@ class Gen:
             opts.append((2, "reduce"))
         if self.prof["functions"] and self.real_functions():
             opts.append((1, "fn"))
+        if self.prof["rich_intrinsics"]:
+            opts += [(2, "sign"), (2, "minmax3"), (2, "abs")]
         kind = self.weighted(opts)
         if kind == "reduce":
             return self.reduction()
+        if kind == "sign":
+            return (f"sign({self.real_expr(depth - 1)}, "
+                    f"{self.pick(['1.0', '(-1.0)', '2.5', '(-0.5)'])})")
+        if kind == "minmax3":
+            return (f"{self.pick(['min', 'max'])}({self.real_expr(depth - 1)}"
+                    f", {self.real_expr(depth - 1)}, {self.real_atom()})")
         lhs = self.real_expr(depth - 1)
         if kind in "+-":
             return f"({lhs} {kind} {self.real_expr(depth - 1)})"
@@ -541,9 +594,15 @@ class Gen:
             sec = self.section(arr, [self.int(1, min(3, maxext))])
             return f"product({sec})"
         if self.flip():
-            return f"{kind}({arr.name})"
-        shape = [self.int(1, ub - lb + 1) for lb, ub in arr.dims]
-        sec = self.section(arr, shape)
+            sec = arr.name
+            shape = [ub - lb + 1 for lb, ub in arr.dims]
+        else:
+            shape = [self.int(1, ub - lb + 1) for lb, ub in arr.dims]
+            sec = self.section(arr, shape)
+        if self.prof["rich_intrinsics"] and kind == "sum" and self.flip(1, 3):
+            other = self.section_of_extent(shape, "real") or sec
+            return (f"sum({sec}, mask=({other} "
+                    f"{self.pick(['>', '<=', '/='])} {self.real_atom()}))")
         return f"{kind}({sec})"
 
     def log_expr(self, depth=2):
@@ -668,6 +727,11 @@ class Gen:
                     return f"({sec} + {self.int_expr(1)[0]})"
                 return sec
             return self.int_expr(1)[0]
+        if self.prof["rich_intrinsics"] and len(shape) == 1 and \
+                self.flip(1, 4):
+            red = self.dim_reduction(shape[0])
+            if red:
+                return red
         if depth <= 0 or self.flip(1, 3):
             sec = self.section_of_extent(shape, "real")
             if sec and self.flip(3, 4):
@@ -687,6 +751,91 @@ class Gen:
         if kind == "max":
             return f"max({lhs}, {self.array_expr(shape, 'real', depth - 1)})"
         return f"(-{lhs})"
+
+    def dim_reduction(self, ext):
+        """Rank-1 array-valued reduction over one dim of a rank-2 array."""
+        cands = []
+        for arr in self.arrays("real", rank=2):
+            for dim in (1, 2):
+                oth = arr.dims[2 - dim]
+                if oth[1] - oth[0] + 1 >= ext:
+                    cands.append((arr, dim))
+        if not cands:
+            return None
+        arr, dim = self.pick(cands)
+        oth = arr.dims[2 - dim]
+        red = arr.dims[dim - 1]
+        nred = self.int(1, red[1] - red[0] + 1)
+        parts = [None, None]
+        parts[dim - 1] = self.range_text(red[0], red[1], nred)
+        parts[2 - dim] = self.range_text(oth[0], oth[1], ext)
+        kind = self.pick(["sum", "sum", "maxval", "minval", "product"])
+        if kind == "product":
+            parts[dim - 1] = self.range_text(red[0], red[1], min(nred, 2))
+        self.features.add("dim_reduction")
+        return f"{kind}({arr.name}({parts[0]}, {parts[1]}), dim={dim})"
+
+    def s_matmul(self):
+        """vector = MATMUL(matrix, vector) or matrix = MATMUL(matrix,
+        matrix) on whole arrays or sections."""
+        mats = self.arrays("real", rank=2)
+        if not mats:
+            raise NoFit()
+        self.features.add("matmul")
+        amat = self.pick(mats)
+        nrow = self.int(1, min(4, amat.dims[0][1] - amat.dims[0][0] + 1))
+        nmid = self.int(1, min(4, amat.dims[1][1] - amat.dims[1][0] + 1))
+        whole = self.flip(1, 4)
+        if whole:
+            nrow = amat.dims[0][1] - amat.dims[0][0] + 1
+            nmid = amat.dims[1][1] - amat.dims[1][0] + 1
+            atxt = amat.name if self.flip() else f"{amat.name}(:, :)"
+        else:
+            atxt = (f"{amat.name}("
+                    f"{self.unit_range(amat.dims[0], nrow)}, "
+                    f"{self.unit_range(amat.dims[1], nmid)})")
+        if self.flip(2, 3):
+            vecs = [a for a in self.arrays("real", rank=1)
+                    if a.size() >= nmid]
+            outs = [a for a in self.arrays("real", rank=1, writable=True)
+                    if a.size() >= nrow]
+            if not vecs or not outs:
+                raise NoFit()
+            vec = self.pick(vecs)
+            out = self.pick([o for o in outs if o.name != vec.name] or outs)
+            if out.name == vec.name:
+                raise NoFit()
+            vtxt = vec.name if vec.size() == nmid and self.flip() else \
+                f"{vec.name}({self.unit_range(vec.dims[0], nmid)})"
+            otxt = out.name if out.size() == nrow and self.flip() else \
+                f"{out.name}({self.unit_range(out.dims[0], nrow)})"
+            return [f"{otxt} = matmul({atxt}, {vtxt})"]
+        others = [a for a in mats if a.name != amat.name and
+                  a.dims[0][1] - a.dims[0][0] + 1 >= nmid]
+        if not others:
+            raise NoFit()
+        bmat = self.pick(others)
+        ncol = self.int(1, min(3, bmat.dims[1][1] - bmat.dims[1][0] + 1))
+        btxt = (f"{bmat.name}({self.unit_range(bmat.dims[0], nmid)}, "
+                f"{self.unit_range(bmat.dims[1], ncol)})")
+        outs = [a for a in self.arrays("real", rank=2, writable=True)
+                if a.name not in (amat.name, bmat.name)
+                and a.dims[0][1] - a.dims[0][0] + 1 >= nrow
+                and a.dims[1][1] - a.dims[1][0] + 1 >= ncol]
+        if not outs:
+            raise NoFit()
+        out = self.pick(outs)
+        otxt = (f"{out.name}({self.unit_range(out.dims[0], nrow)}, "
+                f"{self.unit_range(out.dims[1], ncol)})")
+        return [f"{otxt} = matmul({atxt}, {btxt})"]
+
+    def unit_range(self, dim, ext):
+        """Unit-stride range text of extent `ext` within dim (lb, ub)."""
+        lb, ub = dim
+        start = self.int(lb, ub - ext + 1)
+        if ext == ub - lb + 1 and self.flip():
+            return ":"
+        return f"{lit(start)}:{lit(start + ext - 1)}"
 
     # ---- statements -----------------------------------------------------
     def stmt(self):
@@ -812,16 +961,29 @@ class Gen:
             self.features.add("nonunit_step" if step > 0 else "neg_step")
         return txt, rng
 
-    def s_do(self):
+    def s_do(self, header=None):
         name = self.free_loopvars.pop(0)
         var = self.hidden_loopvars[name]
         self.vars[name] = var
-        head, rng = self.loop_header(var)
+        if header is None:
+            head, rng = self.loop_header(var)
+            header = (head.split("=", 1)[1], rng)
+        else:
+            head = f"do {var.name} ={header[0]}"
+            rng = header[1]
         var.rng = rng
         var.role = "loop"
         self.loop_stack.append(var)
         self.loop_kinds.append("do")
-        body = self.block(1, 3)
+        if self.free_loopvars and self.depth < self.prof["max_depth"] - 1 \
+                and self.int(1, 100) <= self.prof["perfect_nest"]:
+            self.depth += 1
+            self.budget -= 1
+            body = ["  " + ln for ln in self.s_do()]
+            self.depth -= 1
+            self.features.add("perfect_nest")
+        else:
+            body = self.block(1, 3)
         self.loop_kinds.pop()
         self.loop_stack.pop()
         var.rng = None
@@ -832,7 +994,21 @@ class Gen:
         self.features.add("loop")
         if len(self.loop_stack) >= 1:
             self.features.add("nested_loop")
-        return [head] + body + ["end do"]
+        lines = [head] + body + ["end do"]
+        if self.int(1, 100) <= self.prof["twin_loops"] and \
+                not getattr(self, "_in_twin", False):
+            self._in_twin = True
+            self.features.add("twin_loops")
+            if self.int(1, 100) > self.prof["same_var_twin"] and \
+                    len(self.free_loopvars) > 1:
+                # use a different loop variable for the twin
+                self.free_loopvars.append(self.free_loopvars.pop(0))
+                lines += self.s_do(header)
+                self.free_loopvars.insert(0, self.free_loopvars.pop())
+            else:
+                lines += self.s_do(header)
+            self._in_twin = False
+        return lines
 
     def s_dowhile(self):
         self.while_counter += 1
@@ -1139,6 +1315,7 @@ def programs(draw, profile=None):
     m_var = Var("m", "int", role="in", rng=(1, 3))
     scal = [n_var, m_var, Var("k", "int"), Var("x", "real"),
             Var("y", "real"), Var("lg", "log")]
+    scal += [Var(nm, "int") for nm in prof["extra_int_scalars"]]
     if prof["arrays"] is None:
         nar = gen.int(2, 5)
         pool = [v for v in ARRAY_POOL
